@@ -1,5 +1,15 @@
-"""C16 - value accounting adds up."""
-from .. import engine_line
+"""C16 - value accounting adds up.
+
+Second engine: the model is run to an instant, the whole System is duplicated
+(copy.deepcopy, or dill as utils.save_object / load_object do), and the
+DUPLICATE is continued on its own; after every slice of its run every asset and
+every part in the duplicate must still satisfy the value identity, starting
+from the value and history it had when it was duplicated.
+"""
+import random
+
+from .. import build as build_mod
+from .. import core, engine_line, instrument, modelgen
 
 SPEC = {
     'level': 'exploration',
@@ -11,11 +21,13 @@ SPEC = {
              '-cost_of_produced_parts; sink value == summed value at receipt == value_of_received_parts; '
              'maintainer value == start - cost of started orders; batch value == sum of parts; system net value == '
              'sum over assets; a case is one model; non-trivial = >=3 distinct part values seen and a value '
-             'changed by a callback; also: waiting parts re-priced in place, work-order costs that change with every order, pallets of boxes (nested batches)'),
+             'changed by a callback; also: waiting parts re-priced in place, work-order costs that change with every order, pallets of boxes (nested batches); duplicates of the System (deepcopy / dill) continued on their own, audited after every slice of their run'),
     'floors': {'quick': {'value_identity_checks': 20000, 'supplies_valued': 2000, 'receipts_valued': 1000,
-                         'orders_costed': 100, 'batch_value_checks': 500, 'prestart_pokes': 50},
+                         'orders_costed': 100, 'batch_value_checks': 500, 'prestart_pokes': 50,
+                         'duplicate_value_identity_checks': 5000},
                'thorough': {'value_identity_checks': 400000, 'supplies_valued': 40000, 'receipts_valued': 20000,
-                            'orders_costed': 2000, 'batch_value_checks': 10000, 'prestart_pokes': 1000}},
+                            'orders_costed': 2000, 'batch_value_checks': 10000, 'prestart_pokes': 1000,
+                            'duplicate_value_identity_checks': 200000}},
     'assumptions': ['values on the dyadic grid: sums are exact'],
     'timeout_s': {'quick': 900, 'thorough': 7200},
 }
@@ -26,10 +38,150 @@ def nontrivial(f):
     return f.get('distinct_part_values', 0) >= 3
 
 
+def in_flight(system):
+    """Parts (and batches, and their contents) sitting in the devices of a System."""
+    out = []
+
+    def add(p):
+        if p is None or not hasattr(p, 'value_history'):
+            return
+        out.append(p)
+        for q in getattr(p, 'parts', None) or []:
+            add(q)
+    for a in system.find_assets():
+        for attr in ('_part', '_output'):
+            add(getattr(a, attr, None))
+        for entry in getattr(a, '_buffer', None) or []:
+            add(entry[1] if isinstance(entry, (tuple, list)) and len(entry) > 1 else entry)
+        for q in getattr(a, 'collected_parts', None) or []:
+            add(q)
+    return out
+
+
+class DuplicateAudit:
+    def __init__(self, sh, case, system, how):
+        self.sh, self.case, self.system, self.how = sh, case, system, how
+        self.base = {}
+        self.failed = False
+        self.sight()
+
+    def sight(self):
+        for a in list(self.system.find_assets()) + in_flight(self.system):
+            if id(a) not in self.base:
+                h = list(a.value_history)
+                self.base[id(a)] = (a, a.value, h)
+                if h and h[-1][3] != a.value and getattr(a, 'parts', None) is None:
+                    self.fail(a, f'first seen with value {a.value!r} but its history ends at total {h[-1][3]!r}')
+
+    def fail(self, a, msg):
+        if not self.failed:
+            self.failed = True
+            self.sh.violation('duplicate_value_identity', f'System duplicated with {self.how} at {self.case["cut"]!r} and '
+                              f'continued on its own; at {self.system.env.now!r} {type(a).__name__} {a.name}: {msg}',
+                              self.case, engine='duplicate')
+
+    def audit(self):
+        self.sight()
+        now = self.system.env.now
+        for a, v0, h0 in self.base.values():
+            if self.failed:
+                return
+            if getattr(a, 'parts', None) is not None:
+                # a batch is worth the sum of its parts (it has no history of its own)
+                if a.value != sum(q.value for q in a.parts):
+                    self.fail(a, f'batch value {a.value!r}, its parts are worth {[q.value for q in a.parts]}')
+                    return
+                self.sh.count('duplicate_batch_value_checks')
+                continue
+            h = a.value_history
+            if list(h[:len(h0)]) != h0:
+                self.fail(a, f'the {len(h0)} history entries it had when duplicated have changed')
+                return
+            tot = v0
+            for label, t, dv, total in h[len(h0):]:
+                tot = tot + dv
+                if dv == 0 or total != tot or not (self.case['cut'] <= t <= now):
+                    self.fail(a, f'history entry {(label, t, dv, total)!r}: running total should be {tot!r} '
+                              f'(value when duplicated {v0!r}, {len(h) - len(h0)} entries since)')
+                    return
+            if a.value != tot:
+                self.fail(a, f'value {a.value!r}, but value when duplicated {v0!r} + the {len(h) - len(h0)} changes '
+                          f'recorded since = {tot!r}')
+                return
+            self.sh.count('duplicate_value_identity_checks')
+
+
+def duplicate_case(sh, i):
+    import copy
+    import io
+    from simprocesd.model.factory_floor.asset import Asset
+    seed = core.stable_int(sh.seed, 'C16dup', i) % (1 << 40)
+    rng = random.Random(seed)
+    spec = modelgen.generate(seed, 'values')
+    total = sum(spec['horizon'])
+    cut = rng.choice([0.0, 2.5, 2.5, 6.125, total / 2])
+    if cut >= total:
+        cut = total / 2
+    how = rng.choice(['copy.deepcopy', 'dill'])
+    case = {'engine': 'duplicate', 'seed': seed, 'cut': cut, 'how': how, 'i': i}
+    instrument.install()
+    bus = instrument.Bus(None)
+    random.seed(seed)
+    try:
+        with instrument.use_bus(bus):
+            m = build_mod.build(dict(spec, tie='native', seed=seed), bus=None)
+            m.system.simulate(cut, print_summary=False)
+            st, idc = random.getstate(), Asset._id_counter
+            with instrument.probing():
+                twin = None
+                if how == 'dill':
+                    try:
+                        import dill
+                        buf = io.BytesIO()
+                        dill.dump(m.system, buf)
+                        twin = dill.loads(buf.getvalue())
+                    except Exception:
+                        how = case['how'] = 'copy.deepcopy'     # (harness objects dill cannot take)
+                        sh.count('duplicates_dill_could_not_take')
+                if twin is None:
+                    twin = copy.deepcopy(m.system)
+                # the duplicate equals the original at this moment ...
+                a0 = {a.id: (a.value, list(a.value_history)) for a in m.system.find_assets()}
+                a1 = {a.id: (a.value, list(a.value_history)) for a in twin.find_assets()}
+                if a0 != a1:
+                    bad = next(k for k in a0 if a0[k] != a1.get(k))
+                    sh.violation('duplicate_value_identity', f'System duplicated with {how} at {cut!r}: asset id {bad} has '
+                                 f'value / history {a0[bad]} in the original, {a1.get(bad)} in the duplicate', case,
+                                 engine='duplicate')
+                    return
+                au = DuplicateAudit(sh, case, twin, how)
+                # ... and is continued on its own, in slices
+                left = total - cut
+                for k in range(8):
+                    twin.env.run(left / 8)
+                    au.audit()
+                    if au.failed:
+                        break
+                if not au.failed:
+                    sh.count('duplicates_continued:' + how)
+                    if any(len(a.value_history) > len(h0) for a, v0, h0 in au.base.values()):
+                        sh.count('duplicates_whose_values_changed_afterwards')
+            random.setstate(st)
+            Asset._id_counter = idc
+    except build_mod.HarnessError:
+        sh.count('duplicate_runs_ended_by_user_code_errors')
+    sh.case_done(case, True)
+
+
 def run(sh):
     n = 300 if sh.tier == 'quick' else 50000
     engine_line.run_profile(sh, 'C16', 'values', n, MONITORS, nontrivial)
+    for i in sh.share(n // 3):
+        duplicate_case(sh, i)
 
 
 def replay(sh, v):
+    if v['case'].get('engine') == 'duplicate':
+        duplicate_case(sh, v['case']['i'])
+        return
     engine_line.replay_case(sh, 'C16', v['case'], MONITORS)
